@@ -37,7 +37,7 @@ CLAIMS = {
   note="Trusted: Coq kernel+VM; hand model of sni.rs handle(); oracle O7 (which strings parse as an Authority); that TlsConnectionInfo carries the handshake's real SNI is info/tls + rustls (R3). Genuine defect D11 fixed (0d420de). No axioms.",
   technique="Coq proof (case analysis, string lemmas) + differential correspondence", ref="DESIGN.md 4/C20, 3.7"),
  "C12": dict(
-  text="Coq theorems for every scheme string, host form, certificate situation, ALPN offer and injected fault: the model of TlsTransport/TlsTransportWrapper/TlsConnectionFuture satisfies the C12 monitor (https/wss with TLS configured: never a plain stream, a stream only after a successful handshake with SNI = URI host (none for IP literals), failures are errors never a fallback, nothing the application writes is visible in the clear; other schemes unwrapped; total). Tied to the real TlsTransport<DuplexTransport> against a recording peer running a real rustls server with matching / wrong-name / untrusted certificates and peer faults.",
+  text="Coq theorems for every scheme string, host form, certificate situation, ALPN offer and injected fault: the model of TlsTransport/TlsTransportWrapper/TlsConnectionFuture satisfies the C12 monitor (https/wss with TLS configured: never a plain stream, a stream only after a successful handshake with SNI = URI host (none for IP literals), failures are errors never a fallback, nothing the application writes is visible in the clear; other schemes unwrapped; total; a Host header already present in the request parts changes nothing: c12_host_header_irrelevant). Tied to the real TlsTransport<DuplexTransport> against a recording peer running a real rustls server with matching / wrong-name / untrusted certificates, caller-set Host headers and peer faults.",
   note="Trusted: Coq kernel+VM; hand model; oracle O6/R3: rustls (name classification taken from the real crate by the harness; that a completed handshake implies encryption + verified certificate is rustls's own guarantee); fixtures minted with openssl. Genuine defects D9, D12 fixed (4332f80, c6ea88a). No axioms.",
   technique="Coq proof (case analysis over the connect state machine, monitor = spec) + differential correspondence with a real TLS peer", ref="DESIGN.md 4/C12, 3.6"),
 
